@@ -368,6 +368,9 @@ func runC01() {
 	var cases, byteCases []string
 	distinct := map[string]bool{}
 	for _, src := range srcs {
+		// results of the untyped compile per environment: a typed compile of an accepted expression must not FAIL for a
+		// type reason where the untyped one returns a value (the language definition assigns that value)
+		untypedOK := map[int]bool{}
 		for _, m := range modes {
 			tree, prog, _, err := pipeline(src, m.options(envs[0]))
 			if err != nil {
@@ -392,6 +395,13 @@ func runC01() {
 					rep.hist("run ok")
 				} else {
 					rep.hist("run fails " + cls)
+				}
+				if m.Name == modeUntyped.Name {
+					untypedOK[ei] = r.err == nil
+				} else if untypedOK[ei] && (cls == "EIfaceConv" || cls == "EReflect") && !strings.Contains(r.err.Error(), "nil") {
+					// (a nil reached through a nil-safe chain where the static type promises a value is a VALUE reason, as in C03)
+					rep.fail(Failure{Key: "C01-typed-run-type-failure", What: "an expression the checker accepts fails at run time with a dynamic type error in the typed compile although the untyped compile of the same source returns a value on the same environment",
+						Input: map[string]interface{}{"src": src, "mode": m.Name, "env": ei}, Want: "the value of the untyped run", Got: clip(r.err.Error())})
 				}
 				cs := coreCase(false, m.Cast, vm.MemoryBudget, ei, tree, prog, r)
 				cases = append(cases, cs)
